@@ -30,6 +30,9 @@ def run(ctx, env):
     ctx.rule("R10.8", "a decoded value that was altered cannot be re-exported as received: no arithmetic, clamping, narrowing, trimming, truncation or sub-slicing between the wire bytes and the stored FieldValue (value path of from_field_type, shared with C04 R4.11; the known lossy codecs of R9.2 / R10.3 are conversions, not alterations, and are listed there)")
     from . import valuepath as _vp
     _vp.rule(ctx, prog, an, "R10.8", time_units=False)
+    ctx.rule("R10.9", "a data set is decoded as data: set ids 255 and above never reach a template parser (whose decode strips the enterprise bit and re-frames the bytes), so its bytes are re-exported as received (shared with C05 R5.2)")
+    from . import c05 as _c05
+    _c05.set_id_dispatch_rule(ctx, prog, an, "R10.9", only_data=True)
     ctx.rule("R10.7", "no silent consumption in the IPFIX and value decoders: every parser step on a returned remainder chain contributes its decoded value to the result (bytes that are consumed but not stored cannot be re-exported); shared with C02 R2.8")
     from . import consume as _consume
     _consume.rule(ctx, prog, an, "R10.7", lambda b: b.path.startswith(("variable_versions::ipfix::", "variable_versions::data_number::")), floor=12)
